@@ -14,15 +14,18 @@ class Inter:
     """One interaction. kind rr|fnf|push|stream|channel; init c|s; tag single letter."""
 
     def __init__(self, kind, init, tag, down=0, up=0, size='S', pub='manual', credit='max', ending='complete',
-                 rr_mode='now', cancel_after=None, up_ending='complete'):
+                 rr_mode='now', cancel_after=None, up_ending='complete', resp_cancel=None):
         self.kind, self.init, self.tag = kind, init, tag
+        # channel only: the responder's application cancels its inbound subscription ('onsub': inside on_subscribe, k: inside on_next
+        # of the k-th element of the requester) and goes on answering
+        self.resp_cancel = resp_cancel
         self.down, self.up, self.size, self.pub, self.credit = down, up, size, pub, credit
         self.ending, self.rr_mode, self.cancel_after, self.up_ending = ending, rr_mode, cancel_after, up_ending
 
     def spec(self):
         return dict(kind=self.kind, init=self.init, tag=self.tag, down=self.down, up=self.up, size=self.size,
                     pub=self.pub, credit=self.credit, ending=self.ending, rr_mode=self.rr_mode,
-                    cancel_after=self.cancel_after, up_ending=self.up_ending)
+                    cancel_after=self.cancel_after, up_ending=self.up_ending, resp_cancel=self.resp_cancel)
 
     @staticmethod
     def from_spec(d):
@@ -173,7 +176,9 @@ class Mix(Scenario):
                     return suspended(it, lambda: request_channel(h, p))
                 pub = None if it.pub == 'none' else self._publisher(w, it, side, 'd', it.down, it.ending)
                 sub = RecSubscriber(w, side, 'rsub' + it.tag,
-                                    request_on_subscribe=(MAXN if it.credit == 'max' else 1))
+                                    request_on_subscribe=(MAXN if it.credit == 'max' else 1),
+                                    cancel_on_subscribe=(it.resp_cancel == 'onsub'),
+                                    cancel_in_on_next=(it.resp_cancel if isinstance(it.resp_cancel, int) else None))
                 if it.credit == 'one':
                     _auto_request(sub)
                 st[it.tag]['rsub'] = sub
@@ -277,7 +282,17 @@ class Mix(Scenario):
 
         cb = {'on_cancel': lambda: w.api(side, 'pub' + it.tag + role, 'cancel', ()),
               'on_complete': lambda: w.api(side, 'pub' + it.tag + role, 'completed', ())}
-        if it.pub in ('gen', 'raise'):
+        if it.pub in ('genfactory', 'agenfactory'):
+            # the source cannot be opened: the factory handed to the library raises when it is called (an application error)
+            def factory():
+                raise RuntimeError('source cannot be opened ' + it.tag)
+
+            if it.pub == 'genfactory':
+                from rsocket.streams.stream_from_generator import StreamFromGenerator as Src
+            else:
+                from rsocket.streams.stream_from_async_generator import StreamFromAsyncGenerator as Src
+            pub = Src(factory, **cb)
+        elif it.pub in ('gen', 'raise'):
             from rsocket.streams.stream_from_generator import StreamFromGenerator
             pub = StreamFromGenerator(gen, **cb)
         else:
@@ -519,7 +534,12 @@ class Mix(Scenario):
             if it.kind == 'channel' and it.cancel_after is None:
                 rsub = st.get('rsub')
                 got_e = [e for e in (rsub.elements() if rsub else []) if e != (b'', b'')]
-                if got_e != self.expected_up(it):
+                if it.resp_cancel is not None:
+                    # the responder stopped listening: it holds a prefix of what the requester had to send (nothing after its cancel)
+                    if got_e != self.expected_up(it)[:len(got_e)] or (isinstance(it.resp_cancel, int) and len(got_e) > it.resp_cancel):
+                        out.append(('C01.elements-in-order', 'C01.elements-in-order | %s | up | after-responder-cancel' % cfg,
+                                    'interaction %s: responder subscriber (cancelled its inbound side) got %s' % (it.tag, _short(got_e))))
+                elif got_e != self.expected_up(it):
                     out.append(('C01.elements-in-order', 'C01.elements-in-order | %s | up | %s' % (cfg, _diffkind(got_e, self.expected_up(it))),
                                 'interaction %s: responder subscriber got %s expected %s' % (it.tag, _short(got_e), _short(self.expected_up(it)))))
         for side in ('c0', 's0'):
